@@ -11,12 +11,61 @@ fn soup(rep: &mut Rep, seed: u64, ops: usize) {
         _ => rng.arr(),
     };
     let replay = format!("soup {} {}", seed, ops);
-    let (mut vc, mut vs) = objs::vanilla_pair(k);
-    let (mut tc, mut ts) = objs::tbc_pair(k);
-    let (mut wc, mut ws) = objs::wrath_pair(k);
+    // the order in which the three expansions are first used on this thread varies
+    let order = seed % 6;
+    let built = guard(|| match order {
+        0 => {
+            let v = objs::vanilla_pair(k);
+            let t = objs::tbc_pair(k);
+            let w = objs::wrath_pair(k);
+            (v, t, w)
+        }
+        1 => {
+            let w = objs::wrath_pair(k);
+            let t = objs::tbc_pair(k);
+            let v = objs::vanilla_pair(k);
+            (v, t, w)
+        }
+        2 => {
+            let t = objs::tbc_pair(k);
+            let w = objs::wrath_pair(k);
+            let v = objs::vanilla_pair(k);
+            (v, t, w)
+        }
+        3 => {
+            let t = objs::tbc_pair(k);
+            let v = objs::vanilla_pair(k);
+            let w = objs::wrath_pair(k);
+            (v, t, w)
+        }
+        4 => {
+            let w = objs::wrath_pair(k);
+            let v = objs::vanilla_pair(k);
+            let t = objs::tbc_pair(k);
+            (v, t, w)
+        }
+        _ => {
+            let v = objs::vanilla_pair(k);
+            let w = objs::wrath_pair(k);
+            let t = objs::tbc_pair(k);
+            (v, t, w)
+        }
+    });
+    let ((mut vc, mut vs), (mut tc, mut ts), (mut wc, mut ws)) = match built {
+        Ok(x) => x,
+        Err(e) => {
+            rep.ev(1);
+            rep.violation(
+                "c14:panic:world_login",
+                format!("a valid world login (proof / seeds as a peer would send them) panicked when the three expansions were set up in order {} on one thread: {}", order, e),
+                replay,
+            );
+            return;
+        }
+    };
     let mut trace: Vec<u8> = Vec::new();
     for _ in 0..ops {
-        let op = rng.below(22) as u8;
+        let op = rng.below(30) as u8;
         trace.push(op);
         let junk = rng.bytes(8);
         let n = rng.below(9) as usize;
@@ -96,6 +145,43 @@ fn soup(rep: &mut Rep, seed: u64, ops: usize) {
                 }
                 20 => {
                     let _ = vs.decrypter().read_and_decrypt_client_header(&mut rd);
+                }
+                22 => {
+                    let mut d = rng.bytes(if big { n * 77 } else { n * 7 });
+                    vc.decrypt(&mut d)
+                }
+                23 => {
+                    let mut d = rng.bytes(if big { n * 77 } else { n * 7 });
+                    tc.decrypt(&mut d)
+                }
+                24 => {
+                    let _ = vc.decrypt_client_header(a6);
+                    let _ = vs.decrypt_server_header(a4);
+                }
+                25 => {
+                    let _ = tc.decrypt_client_header(a6);
+                    let _ = ts.decrypt_server_header(a4);
+                }
+                26 => {
+                    // the replies a victim sends while the peer feeds it garbage
+                    let mut d = rng.bytes(n);
+                    vs.encrypt(&mut d);
+                    let _ = vs.encrypt_server_header(junk[0] as u16 * 257, junk[1] as u16);
+                    let _ = vc.encrypt_client_header(junk[2] as u16, junk[3] as u32);
+                }
+                27 => {
+                    let mut d = rng.bytes(n);
+                    ts.encrypt(&mut d);
+                    let _ = ts.encrypt_server_header(junk[0] as u16 * 257, junk[1] as u16);
+                    let _ = tc.encrypt_client_header(junk[2] as u16, junk[3] as u32);
+                }
+                28 => {
+                    let _ = ws.encrypt_server_header(u32::from_le_bytes(a4) & 0x7FFFFF, junk[5] as u16).len();
+                    let _ = wc.encrypt_client_header(junk[2] as u16, junk[3] as u32);
+                }
+                29 => {
+                    let _ = vc.read_and_decrypt_client_header(&mut rd);
+                    let _ = tc.read_and_decrypt_client_header(&mut rd);
                 }
                 _ => {
                     let _ = tc.decrypter().read_and_decrypt_server_header(&mut rd);
